@@ -365,6 +365,29 @@ func checkInfo(c *Case, rep *core.Report, f *refmcap.File, data []byte, want *re
 	} else if info.Statistics != nil {
 		bad = append(bad, "Info.Statistics present although the file has no statistics record")
 	}
+	// Info.ChannelCounts(): messages per topic, summed over the channels that share the topic
+	if !c.K.SkipStatistics && !c.K.SkipRepeatedChannelInfos && info.Statistics != nil {
+		wantTopic := map[string]uint64{}
+		for k := range c.W.Ops {
+			if ch := c.W.Ops[k].Channel; ch != nil {
+				if n, ok := want.ChannelCounts[ch.ID]; ok && !seenChan(c.W.Ops[:k], ch.ID) {
+					wantTopic[ch.Topic] += n
+				}
+			}
+		}
+		var got map[string]uint64
+		if p := core.Safe(func() { got = info.ChannelCounts() }); p != nil {
+			rep.Violate("info-panic", fmt.Sprintf("%s: Info.ChannelCounts panicked: %v", c.Describe(), p), c.Witness())
+			return
+		}
+		rep.Count("info_channelcounts_topics_compared", int64(len(wantTopic)))
+		for t, n := range wantTopic {
+			if got[t] != n {
+				bad = append(bad, fmt.Sprintf("Info.ChannelCounts()[%q] = %d, the channels on that topic carry %d messages", t, got[t], n))
+				break
+			}
+		}
+	}
 	// channels / schemas
 	sch := f.SummaryRecs(refmcap.OpSchema)
 	if len(info.Schemas) != len(distinctIDs(sch)) {
@@ -507,4 +530,14 @@ func RunC08(ctx *core.Ctx, rep *core.Report) {
 			checkC08Case(targetedC08Case(ctx, i-n-cross), rep)
 		}
 	})
+}
+
+// seenChan reports whether an earlier op already registered the channel id (re-written identical records).
+func seenChan(ops []refmcap.Item, id uint16) bool {
+	for k := range ops {
+		if ch := ops[k].Channel; ch != nil && ch.ID == id {
+			return true
+		}
+	}
+	return false
 }
